@@ -66,7 +66,7 @@ EXTRA = {
  "C09": " Also: Skip and Delay together; a Verify that is not a pure function (flaky after enable); enable behind a full callback queue; a config type without a Verify method (plain.go); window clauses after abandoned enable calls; one run in sixteen through an ez entry point with a watching flag source (verification on and callbacks delivered after the return, with and without a config file); watchers that finish (Done) while the delay is in force.",
  "C13": " Corpus since grown by an embedded struct with the flattening YAML decoder as fifth configuration (seeded decode order), time.Time in slice elements and []time.Time, *[]time.Duration, integer durations beyond 2^53 ns, escaped JSON strings, present-but-empty sections, a ten-level struct chain; one run in ten decodes several documents at the same time on scheduled tasks through shared Decoder values (scheduling points in the reader and in text-unmarshalable leaves); one run in 200 has a document of 8 KiB to 3 MiB; a slice element with an unexported field and with a pointer-to-struct section; a section inside the embedded struct; a set of structs; field names beginning with a non-ASCII capital; defined integer types with and without a text form.",
  "C17": " Layouts: plain, ..dir, the real ..data layout, and a symlink re-pointed at other names and directories (also at targets that appear later, with polling); JSON and YAML (in-place growth keeping the old bytes as prefix); non-clean spellings of the config path; decode errors that wrap fs.ErrNotExist; the file source behind a transforming source whose mangler refuses some decodable contents; one run in sixteen sets the watching file source on a Blank after Config (three kinds of SetSource context); the error for a broken final content is owed since the last good read.",
- "C18": " Also: aliased and set-typed leaves (explicitly empty), kebab-case file keys, the default command-line flag source with application-registered flags, a symlinked config path with another extension; files that set nothing (empty, comments only), initially and as a later version; a two-level nested section settable by all four layers; a watching flag source reporting valid and invalid updates after the return; values and config paths with = in them.",
+ "C18": " Also: aliased and set-typed leaves (explicitly empty), kebab-case file keys, the default command-line flag source with application-registered flags, a symlinked config path with another extension; files that set nothing (empty, comments only), initially and as a later version; a two-level nested section settable by all four layers; a watching flag source reporting valid and invalid updates after the return; values and config paths with = in them; the context cancelled during start-up (the entry point must return).",
  "C20": " Also: the native value written leaf by leaf without library code as reference for the reverse translation (C20.unmangle); per-call SetSource contexts and the watch-context liveness oracle; a concurrent Blank.Done client; a guard struct and nested structs inside the embedded one; several tasks decoding through one transforming decoder value; Verify rejections of values set or reported through the wrappers; updates and sources that set nothing at all; two directly nested transforming sources, every innermost source checking the type it is asked for (C20.inner-type); a sibling wrapper with other zero-size manglers earlier in the same process.",
 }
 
